@@ -32,7 +32,7 @@ def seed_all(seed: int):
     fastrand.pcg32_seed(seed % (2**31))
 
 
-def net_config(obs_space, algo="DQN", head=16, enc=16, latent=8, explicit_act=True, max_layers=None):
+def net_config(obs_space, algo="DQN", head=16, enc=16, latent=8, explicit_act=True, max_layers=None, batch_norm=False):
     if isinstance(obs_space, (spaces.Dict, spaces.Tuple)):
         enc_cfg = {
             "latent_dim": 8,
@@ -46,6 +46,12 @@ def net_config(obs_space, algo="DQN", head=16, enc=16, latent=8, explicit_act=Tr
         enc_cfg = {"hidden_size": [enc], "min_mlp_nodes": 8, "max_mlp_nodes": 64}
     else:
         enc_cfg = {"hidden_size": [enc], "min_mlp_nodes": 8, "max_mlp_nodes": 64}
+    if batch_norm:
+        # the library's DEFAULT image encoder config has layer_norm=True, which for CNNs means BatchNorm2d
+        if "cnn_config" in enc_cfg:
+            enc_cfg["cnn_config"]["layer_norm"] = True
+        elif "channel_size" in enc_cfg:
+            enc_cfg["layer_norm"] = True
     if explicit_act:
         # an encoder_config without "activation" resolves the encoder's output activation differently on
         # first build and on clone (finding C01/faithful/encoder_output_activation...); most checks avoid that path
@@ -136,7 +142,8 @@ def build(spec, hp_config=None):
     hp = default_hp(algo)
     hp.update(spec.get("hp", {}))
     first_obs = obs[0] if isinstance(obs, list) else obs
-    kw = dict(net_config=net_config(first_obs, algo, explicit_act=spec.get("netact", True), max_layers=spec.get("maxl")),
+    kw = dict(net_config=net_config(first_obs, algo, explicit_act=spec.get("netact", True), max_layers=spec.get("maxl"),
+                                    batch_norm=bool(spec.get("bn"))),
               hp_config=hp_config,
               index=spec.get("index", 0))
     if "net" in spec:
